@@ -162,7 +162,11 @@ def thorough_extras(pid, mod, rep, repo, ctx):
             r3 = Report(pid)
             c3 = dict(ctx)
             c3["repo"] = r
-            mod.run(f3, r3, "quick", c3)
+            try:
+                mod.run(f3, r3, "quick", c3)
+            except Exception as e:  # the self-test never decides the verdict on /repo; a crash on a mutant is an alarm there
+                T._TRACERS.clear()
+                return ["CRASH|%s: %s" % (type(e).__name__, str(e)[:80])]
             T._TRACERS.clear()
             return sorted(o["key"] for o in r3.violations() if o["key"] not in base)
         finally:
